@@ -1,9 +1,18 @@
 /-
 C11 — A configuration that already satisfies the constraints is left untouched.
 
-All theorems hold for every scalar type and every LU oracle (which is never called).
+All theorems hold for every scalar type and every LU oracle (which is never called).  The
+statements that pass the residual test from a request list to its sub-lists / concatenations take
+the order laws `MaxLaws` of `≤`/`fmax` as an explicit hypothesis (true over ℝ, see
+`Ezpz/Real/Resolve.lean`; false for `Float` because of NaN — example at the end).
+
+Layout: the loop and one level; the public entry point (`converged_guess_untouched*`); re-solving
+at the loop (`resolve_is_identity`); sub-lists and concatenations (`ConvergedAt_subset`,
+`ConvergedAt_append`, `converged_guess_untouched_append`); re-solving at the public entry point
+(`resolve_untouched`, `resolve_is_identity_solve`, `resolve_with_extra_untouched`); examples.
 -/
 import Ezpz.Properties.C03
+import Ezpz.Proofs.Resolve
 set_option linter.unusedSectionVars false
 namespace Ezpz.C11
 open Ezpz Transc
@@ -69,20 +78,158 @@ theorem converged_guess_untouched_level (es : List (Entry α)) (g : List (Nat ×
   intro e he
   simp [hsat e he]
 
-/-- C11.1 (public entry point) — if the residual test passes at the guesses for every attempted
-subset, a successful prioritised solve returns the guesses bit for bit with 0 iterations. -/
-theorem converged_guess_untouched (reqs : List (Constraint α × Nat)) (g : List (Nat × α))
+/-- C11.1 (one level, success derived) — if model creation succeeds, the residual test passes at
+the guesses, at least one round is allowed and the analysis (if any) does not fail, then
+`solve_inner` succeeds, returns the guesses bit for bit with 0 iterations, lists exactly the
+requests whose own verdict at the guesses is "not satisfied", and reports the largest priority. -/
+theorem converged_level_ok (es : List (Entry α)) (g : List (Nat × α)) (cfg : Config α)
+    (solve : Nat → List (Triplet α) → List α → Except SolveError (List α))
+    (analyze : Option (List (Triplet α) → Except SolveError (List α × List (List α))))
+    (hm : modelNew es (g.map (·.1)) = .ok ())
+    (hc : ConvergedAt es cfg (g.map (·.2))) (hcap : 1 ≤ cfg.maxIterations)
+    (hana : ∀ jac, ∃ u, runAnalysis analyze jac g.length = .ok u) :
+    ∃ o, solveInner es g cfg solve analyze = .ok o ∧ o.finalValues = g.map (·.2) ∧
+      o.iterations = 0 ∧
+      o.unsatisfied = (es.filter (fun e => !satisfiedAt e (lookup (g.map (·.2))))).map (·.id) ∧
+      o.prioritySolved = maxPriority es := by
+  obtain ⟨r, hr, hv, hit, _⟩ := converged_guess_untouched_newton es cfg _ hc hcap solve
+  obtain ⟨rs, w1, _, _, _, hres, _, _, _⟩ := hc
+  have hsome := (residualAll_ok_inv _ es rs w1 hres).1
+  obtain ⟨us, hus⟩ := unsatisfiedSweep_of_some (lookup (g.map (·.2))) es hsome
+  obtain ⟨u, hu⟩ := hana r.lastJac
+  have hus' : unsatisfiedSweep es (lookup r.values) = .ok us := by rw [hv]; exact hus
+  refine ⟨⟨us, r.values, r.iterations, lint es ++ r.warnings, maxPriority es, u⟩, ?_, hv, hit, ?_,
+    rfl⟩
+  · unfold solveInner
+    simp only [hm, hr, hus', hu]
+  · exact unsatisfiedSweep_eq _ _ _ hus
+
+/-- C11.1 (public entry point, given success) — if the residual test passes at the guesses for the
+subset attempted at every *visited* level (the distinct requested priorities), a successful
+prioritised solve — with or without analysis — returns the guesses bit for bit with 0 iterations;
+and if every request's own verdict at the guesses is "satisfied", nothing is listed as
+unsatisfied. -/
+theorem converged_guess_untouched_of_ok (reqs : List (Constraint α × Nat)) (g : List (Nat × α))
     (cfg : Config α) (solve : LinSolve α) (svd : Option (Svd α)) (hcap : 1 ≤ cfg.maxIterations)
-    (hc : ∀ P, ConvergedAt ((enumerate reqs).filter (fun e => e.priority ≤ P)) cfg (g.map (·.2)))
+    (hc : ∀ P ∈ levels (enumerate reqs),
+      ConvergedAt ((enumerate reqs).filter (fun e => e.priority ≤ P)) cfg (g.map (·.2)))
     (o : Outcome α) (h : solveWithPriority reqs g cfg solve svd = .ok o) :
-    o.finalValues = g.map (·.2) ∧ o.iterations = 0 := by
+    o.finalValues = g.map (·.2) ∧ o.iterations = 0 ∧
+    ((∀ e ∈ enumerate reqs, satisfiedAt e (lookup (g.map (·.2))) = true) → o.unsatisfied = []) := by
   by_cases hne : reqs = []
   · subst hne
     simp [solveWithPriority, noConstraintsOutcome] at h
     subst h; simp
-  · obtain ⟨P, i, _, hs, _⟩ := C03.result_is_subset_solve reqs g cfg solve svd o hne h
-    have := converged_guess_untouched_level _ g cfg _ _ (hc P) hcap o hs
-    exact ⟨this.1, this.2.1⟩
+  · obtain ⟨P, i, hP, hs, _⟩ := C03.result_is_subset_solve reqs g cfg solve svd o hne h
+    have hPl : P ∈ levels (enumerate reqs) := by
+      rw [mem_levels, enumerate_priorities]; exact hP
+    have := converged_guess_untouched_level _ g cfg _ _ (hc P hPl) hcap o hs
+    exact ⟨this.1, this.2.1, fun hsat => this.2.2 (fun e he => hsat e (List.mem_filter.mp he).1)⟩
+
+/-- C11.1 (public entry point, success derived, values only) — if model creation succeeds for the
+request list, the residual test passes at the guesses for the subset attempted at every visited
+level, at least one round is allowed and the analysis (if any) never fails, then the prioritised
+solve succeeds and returns the guesses bit for bit with 0 iterations, for every LU oracle. -/
+theorem converged_guess_untouched_ok (reqs : List (Constraint α × Nat)) (g : List (Nat × α))
+    (cfg : Config α) (solve : LinSolve α) (svd : Option (Svd α)) (hcap : 1 ≤ cfg.maxIterations)
+    (hm : modelNew (enumerate reqs) (g.map (·.1)) = .ok ())
+    (hc : ∀ P ∈ levels (enumerate reqs),
+      ConvergedAt ((enumerate reqs).filter (fun e => e.priority ≤ P)) cfg (g.map (·.2)))
+    (hana : ∀ i jac, ∃ u, runAnalysis (svd.map (fun s => s i)) jac g.length = .ok u) :
+    ∃ o, solveWithPriority reqs g cfg solve svd = .ok o ∧ o.finalValues = g.map (·.2) ∧
+      o.iterations = 0 := by
+  by_cases hne : reqs = []
+  · subst hne
+    exact ⟨_, rfl, rfl, rfl⟩
+  · have hl := levels_ne_nil reqs hne
+    cases hlv : levels (enumerate reqs) with
+    | nil => exact absurd hlv hl
+    | cons p rest =>
+      have hp : p ∈ levels (enumerate reqs) := by rw [hlv]; simp
+      obtain ⟨o1, ho1, _⟩ := converged_level_ok _ g cfg (solve 0) (svd.map (fun s => s 0))
+        (modelNew_subset _ _ _ hm (fun _ he => (List.mem_filter.mp he).1)) (hc p hp) hcap (hana 0)
+      obtain ⟨o, ho⟩ := priorityLoop_first_ok (enumerate reqs) g cfg solve svd p rest 0 o1 ho1
+      have hsolve : solveWithPriority reqs g cfg solve svd = .ok o := by
+        unfold solveWithPriority
+        rw [if_neg (by simpa using hne), hlv, ho]
+      have := converged_guess_untouched_of_ok reqs g cfg solve svd hcap hc o hsolve
+      exact ⟨o, hsolve, this.1, this.2.1⟩
+
+/-- C11.1 (public entry point) — **a configuration that already satisfies the constraints is
+returned untouched.**  Hypotheses: model creation succeeds for the request list (every declared
+variable has a guess); the residual test (convergence tolerance) passes at the guesses for the
+subset attempted at every *visited* level, i.e. for every distinct requested priority `P` (subsets
+below the smallest requested priority are never run); every request is satisfied at the guesses in
+the solver's own sense (`EPSILON` test of the satisfaction sweep — a separate test); at least one
+round is allowed; the analysis, if requested, never fails (automatic for `svd = none`).
+Conclusion: the solve succeeds, for every LU oracle (no solver step is taken); the values are the
+guesses bit for bit; 0 iterations; nothing is unsatisfied; the solved priority is the largest
+requested priority (`maxPriority`, see `maxPriority_spec`). -/
+theorem converged_guess_untouched (reqs : List (Constraint α × Nat)) (g : List (Nat × α))
+    (cfg : Config α) (solve : LinSolve α) (svd : Option (Svd α)) (hcap : 1 ≤ cfg.maxIterations)
+    (hm : modelNew (enumerate reqs) (g.map (·.1)) = .ok ())
+    (hc : ∀ P ∈ levels (enumerate reqs),
+      ConvergedAt ((enumerate reqs).filter (fun e => e.priority ≤ P)) cfg (g.map (·.2)))
+    (hsat : ∀ e ∈ enumerate reqs, satisfiedAt e (lookup (g.map (·.2))) = true)
+    (hana : ∀ i jac, ∃ u, runAnalysis (svd.map (fun s => s i)) jac g.length = .ok u) :
+    ∃ o, solveWithPriority reqs g cfg solve svd = .ok o ∧ o.finalValues = g.map (·.2) ∧
+      o.iterations = 0 ∧ o.unsatisfied = [] ∧ o.prioritySolved = maxPriority (enumerate reqs) := by
+  by_cases hne : reqs = []
+  · subst hne
+    exact ⟨_, rfl, rfl, rfl, rfl, rfl⟩
+  · -- every visited level, at whatever call number, is good and returns the guesses
+    have hlev : ∀ P ∈ levels (enumerate reqs), ∀ i, ∃ o,
+        levelRun (enumerate reqs) g cfg solve svd i P = .ok o ∧ o.finalValues = g.map (·.2) ∧
+        o.iterations = 0 ∧ o.unsatisfied = [] ∧ o.prioritySolved = P := by
+      intro P hP i
+      obtain ⟨o, ho, h1, h2, h3, h4⟩ := converged_level_ok _ g cfg (solve i)
+        (svd.map (fun s => s i))
+        (modelNew_subset _ _ _ hm (fun _ he => (List.mem_filter.mp he).1)) (hc P hP) hcap (hana i)
+      refine ⟨o, ho, h1, h2, ?_, ?_⟩
+      · rw [h3]
+        simp only [List.map_eq_nil_iff, List.filter_eq_nil_iff]
+        intro e he
+        simp [hsat e (List.mem_filter.mp he).1]
+      · rw [h4]; exact maxPriority_filter _ P ((mem_levels _ _).mp hP)
+    have hl := levels_ne_nil reqs hne
+    obtain ⟨P, hP⟩ : ∃ P, (levels (enumerate reqs)).getLast? = some P := by
+      cases h : (levels (enumerate reqs)).getLast? with
+      | none => exact absurd (List.getLast?_eq_none_iff.mp h) hl
+      | some P => exact ⟨P, rfl⟩
+    obtain ⟨i, o, hloop, hrun⟩ := priorityLoop_all_good (enumerate reqs) g cfg solve svd _ 0 none P
+      (fun p hp i => by
+        obtain ⟨o, ho, _, _, hu, _⟩ := hlev p hp i
+        rw [ho]; simp [goodB, hu]) hP
+    obtain ⟨o', ho', h1, h2, h3, h4⟩ := hlev P (List.mem_of_getLast? hP) i
+    rw [hrun] at ho'
+    injection ho' with ho'
+    subst ho'
+    refine ⟨o, ?_, h1, h2, h3, ?_⟩
+    · unfold solveWithPriority
+      rw [if_neg (by simpa using hne), hloop]
+    · rw [h4]; exact levels_getLast_eq_maxPriority _ P hP
+
+/-- C11.1 for `solve` (no freedom analysis): the analysis hypothesis is vacuous. -/
+theorem converged_guess_untouched_no_analysis (reqs : List (Constraint α × Nat))
+    (g : List (Nat × α)) (cfg : Config α) (solve : LinSolve α) (hcap : 1 ≤ cfg.maxIterations)
+    (hm : modelNew (enumerate reqs) (g.map (·.1)) = .ok ())
+    (hc : ∀ P ∈ levels (enumerate reqs),
+      ConvergedAt ((enumerate reqs).filter (fun e => e.priority ≤ P)) cfg (g.map (·.2)))
+    (hsat : ∀ e ∈ enumerate reqs, satisfiedAt e (lookup (g.map (·.2))) = true) :
+    ∃ o, solveWithPriority reqs g cfg solve none = .ok o ∧ o.finalValues = g.map (·.2) ∧
+      o.iterations = 0 ∧ o.unsatisfied = [] ∧ o.prioritySolved = maxPriority (enumerate reqs) ∧
+      o.underconstrained = none := by
+  obtain ⟨o, h, h1, h2, h3, h4⟩ := converged_guess_untouched reqs g cfg solve none hcap hm hc hsat
+    (fun _ _ => ⟨none, rfl⟩)
+  refine ⟨o, h, h1, h2, h3, h4, ?_⟩
+  by_cases hne : reqs = []
+  · subst hne
+    simp [solveWithPriority, noConstraintsOutcome] at h
+    subst h; rfl
+  · obtain ⟨P, i, _, hs, _⟩ := C03.result_is_subset_solve reqs g cfg solve none o hne h
+    obtain ⟨_, _, _, _, _, _, _, _, ha⟩ := solveInner_ok _ _ _ _ _ _ hs
+    simp [runAnalysis] at ha
+    exact ha.symm
 
 /-- C11.2a — a run that returned at the *residual* test returned a point at which the residual test
 passes (the hypothesis of C11.1 for a re-solve). -/
@@ -140,10 +287,397 @@ theorem resolve_is_identity (es : List (Entry α)) (cfg : Config α)
     omega
   exact converged_guess_untouched_newton es cfg r.values hc hcap solve'
 
+/-! ### The residual test of sub-lists and concatenations (under order laws)
+
+`ConvergedAt` compares the *largest* absolute residual component with the tolerance.  That this is
+inherited by sub-lists and concatenations needs the order laws `MaxLaws` of `≤`/`fmax` (true over
+ℝ, `Ezpz.maxLaws_real`; false for `Float`, where `fmax` skips NaN components). -/
+
+/-- Under the order laws, the residual test passes for a request list iff the list is not empty,
+every request's residual and derivative rows evaluate, and every residual component of every
+request is within the convergence tolerance.  Ids, priorities and row offsets play no role. -/
+theorem convergedAt_iff (L : MaxLaws α) (es : List (Entry α)) (cfg : Config α) (x : List α) :
+    ConvergedAt es cfg x ↔ es ≠ [] ∧ (∀ e ∈ es, ∃ r, e.c.residual (lookup x) = some r) ∧
+      (∀ e ∈ es, ∃ j, e.c.jacobianRows (lookup x) = some j) ∧
+      ∀ e ∈ es, ∀ y ∈ entryRows e (lookup x), abs y ≤ cfg.convergenceTolerance := by
+  constructor
+  · rintro ⟨r, w1, jac, w2, l, hr, hj, hm, hl⟩
+    obtain ⟨h1, h2⟩ := residualAll_ok_inv _ es r w1 hr
+    have h3 := jacobianFrom_ok_inv _ _ es 0 jac w2 hj
+    refine ⟨?_, h1, h3, ?_⟩
+    · rintro rfl
+      simp at h2
+      subst h2
+      simp [maxAbs?] at hm
+    · intro e he y hy
+      exact (maxAbs?_le_iff L r l _ hm).mp hl y
+        (by rw [h2]; exact List.mem_flatMap.mpr ⟨e, he, hy⟩)
+  · rintro ⟨hne, h1, h3, h4⟩
+    obtain ⟨w1, hr⟩ := residualAll_of_some _ es h1
+    obtain ⟨jac, w2, hj⟩ := jacobianAll_of_some _ es h3
+    have hrs : es.flatMap (fun e => entryRows e (lookup x)) ≠ [] := by
+      cases es with
+      | nil => exact absurd rfl hne
+      | cons e rest =>
+        obtain ⟨r, hr⟩ := h1 e (by simp)
+        have := entryRows_ne_nil e _ r hr
+        simp [List.flatMap_cons, this]
+    obtain ⟨m, hm⟩ := maxAbs?_some_of_ne_nil _ hrs
+    refine ⟨_, w1, jac, w2, m, hr, hj, hm, ?_⟩
+    apply (maxAbs?_le_iff L _ m _ hm).mpr
+    intro y hy
+    obtain ⟨e, he, hy⟩ := List.mem_flatMap.mp hy
+    exact h4 e he y hy
+
+/-- **The residual test passes to sub-lists**: if it passes for `es` it passes for every non-empty
+list drawn from `es` (sub-lists, filters by priority, reorderings) — the largest absolute
+component over fewer rows is no larger.  (An empty list never passes, and is never run.) -/
+theorem ConvergedAt_subset (L : MaxLaws α) (es es' : List (Entry α)) (cfg : Config α) (x : List α)
+    (h : ConvergedAt es cfg x) (hsub : ∀ e ∈ es', e ∈ es) (hne : es' ≠ []) :
+    ConvergedAt es' cfg x := by
+  obtain ⟨_, h1, h2, h3⟩ := (convergedAt_iff L es cfg x).mp h
+  exact (convergedAt_iff L es' cfg x).mpr
+    ⟨hne, fun e he => h1 e (hsub e he), fun e he => h2 e (hsub e he),
+      fun e he => h3 e (hsub e he)⟩
+
+/-- **The residual test passes to concatenations**: if it passes for `es` and for `extra` at the
+same point, it passes for `es ++ extra` (no id or row-offset condition is needed). -/
+theorem ConvergedAt_append (L : MaxLaws α) (es extra : List (Entry α)) (cfg : Config α)
+    (x : List α) (h1 : ConvergedAt es cfg x) (h2 : ConvergedAt extra cfg x) :
+    ConvergedAt (es ++ extra) cfg x := by
+  obtain ⟨hne, a1, a2, a3⟩ := (convergedAt_iff L es cfg x).mp h1
+  obtain ⟨_, b1, b2, b3⟩ := (convergedAt_iff L extra cfg x).mp h2
+  refine (convergedAt_iff L _ cfg x).mpr ⟨by simp [hne], ?_, ?_, ?_⟩ <;>
+  · intro e he
+    rcases List.mem_append.mp he with he | he
+    · first | exact a1 e he | exact a2 e he | exact a3 e he
+    · first | exact b1 e he | exact b2 e he | exact b3 e he
+
+/-- The residual test depends only on the constraints, not on ids or priorities. -/
+theorem ConvergedAt_congr (L : MaxLaws α) (es es' : List (Entry α)) (cfg : Config α) (x : List α)
+    (hcs : es.map (·.c) = es'.map (·.c)) : ConvergedAt es cfg x ↔ ConvergedAt es' cfg x := by
+  have key : ∀ (l : List (Entry α)), ConvergedAt l cfg x ↔
+      l.map (·.c) ≠ [] ∧ (∀ c ∈ l.map (·.c), ∃ r, c.residual (lookup x) = some r) ∧
+      (∀ c ∈ l.map (·.c), ∃ j, c.jacobianRows (lookup x) = some j) ∧
+      ∀ c ∈ l.map (·.c), ∀ y ∈ entryRows (⟨c, 0, 0⟩ : Entry α) (lookup x),
+        abs y ≤ cfg.convergenceTolerance := by
+    intro l
+    rw [convergedAt_iff L]
+    simp only [ne_eq, List.map_eq_nil_iff, List.forall_mem_map]
+    rfl
+  rw [key es, key es', hcs]
+
+/-- The residual test for a caller's concatenated request list, from the two parts. -/
+theorem ConvergedAt_enumerate_append (L : MaxLaws α) (reqs extra : List (Constraint α × Nat))
+    (cfg : Config α) (x : List α) (h1 : ConvergedAt (enumerate reqs) cfg x)
+    (h2 : ConvergedAt (enumerate extra) cfg x) : ConvergedAt (enumerate (reqs ++ extra)) cfg x := by
+  have := ConvergedAt_append L _ _ cfg x h1 h2
+  refine (ConvergedAt_congr L _ _ cfg x ?_).mp this
+  simp [enumerate_constraints]
+
+/-- C11.1 from the full list only (under the order laws): it is enough that the residual test
+passes for the *whole* request list — the subsets attempted at the lower levels inherit it. -/
+theorem converged_guess_untouched_of_full (L : MaxLaws α) (reqs : List (Constraint α × Nat))
+    (g : List (Nat × α)) (cfg : Config α) (solve : LinSolve α) (svd : Option (Svd α))
+    (hcap : 1 ≤ cfg.maxIterations)
+    (hm : modelNew (enumerate reqs) (g.map (·.1)) = .ok ())
+    (hc : ConvergedAt (enumerate reqs) cfg (g.map (·.2)))
+    (hsat : ∀ e ∈ enumerate reqs, satisfiedAt e (lookup (g.map (·.2))) = true)
+    (hana : ∀ i jac, ∃ u, runAnalysis (svd.map (fun s => s i)) jac g.length = .ok u) :
+    ∃ o, solveWithPriority reqs g cfg solve svd = .ok o ∧ o.finalValues = g.map (·.2) ∧
+      o.iterations = 0 ∧ o.unsatisfied = [] ∧ o.prioritySolved = maxPriority (enumerate reqs) :=
+  converged_guess_untouched reqs g cfg solve svd hcap hm
+    (fun P hP => ConvergedAt_subset L _ _ cfg _ hc (fun _ he => (List.mem_filter.mp he).1)
+      (filter_level_ne_nil _ P hP)) hsat hana
+
+/-- C11.3 — **adding constraints the configuration already satisfies changes nothing** (under the
+order laws): if the residual test passes at the guesses for `reqs` and for `extra`, the solve of
+`reqs ++ extra` from those guesses succeeds and returns them bit for bit with 0 iterations; if
+moreover every request is satisfied in the sweep's sense, nothing is unsatisfied and the solved
+priority is the largest one. -/
+theorem converged_guess_untouched_append (L : MaxLaws α) (reqs extra : List (Constraint α × Nat))
+    (g : List (Nat × α)) (cfg : Config α) (solve : LinSolve α) (svd : Option (Svd α))
+    (hcap : 1 ≤ cfg.maxIterations)
+    (hm : modelNew (enumerate (reqs ++ extra)) (g.map (·.1)) = .ok ())
+    (hc1 : ConvergedAt (enumerate reqs) cfg (g.map (·.2)))
+    (hc2 : ConvergedAt (enumerate extra) cfg (g.map (·.2)))
+    (hana : ∀ i jac, ∃ u, runAnalysis (svd.map (fun s => s i)) jac g.length = .ok u) :
+    ∃ o, solveWithPriority (reqs ++ extra) g cfg solve svd = .ok o ∧
+      o.finalValues = g.map (·.2) ∧ o.iterations = 0 ∧
+      ((∀ e ∈ enumerate (reqs ++ extra), satisfiedAt e (lookup (g.map (·.2))) = true) →
+        o.unsatisfied = [] ∧ o.prioritySolved = maxPriority (enumerate (reqs ++ extra))) := by
+  have hc := ConvergedAt_enumerate_append L reqs extra cfg _ hc1 hc2
+  have hlv : ∀ P ∈ levels (enumerate (reqs ++ extra)),
+      ConvergedAt ((enumerate (reqs ++ extra)).filter (fun e => e.priority ≤ P)) cfg
+        (g.map (·.2)) :=
+    fun P hP => ConvergedAt_subset L _ _ cfg _ hc (fun _ he => (List.mem_filter.mp he).1)
+      (filter_level_ne_nil _ P hP)
+  obtain ⟨o, ho, h1, h2⟩ := converged_guess_untouched_ok _ g cfg solve svd hcap hm hlv hana
+  refine ⟨o, ho, h1, h2, ?_⟩
+  intro hsat
+  obtain ⟨o', ho', _, _, h3, h4⟩ := converged_guess_untouched _ g cfg solve svd hcap hm hlv hsat hana
+  rw [ho] at ho'
+  injection ho' with ho'
+  subst ho'
+  exact ⟨h3, h4⟩
+
+/-! ### Re-solving the result of a prioritised solve -/
+
+/-- C11.2b — if a prioritised solve returned the outcome of its *top* level (solved priority =
+largest requested priority) and every Newton run on the full list from the guesses stops at the
+residual test (ghost flag `byResidual`), the residual test passes for the full list at the
+returned values. -/
+theorem solve_residual_stop_converged (reqs : List (Constraint α × Nat)) (g : List (Nat × α))
+    (cfg : Config α) (solve : LinSolve α) (svd : Option (Svd α)) (o : Outcome α)
+    (hne : reqs ≠ []) (h : solveWithPriority reqs g cfg solve svd = .ok o)
+    (htop : o.prioritySolved = maxPriority (enumerate reqs))
+    (hb : ∀ i nr, newton (enumerate reqs) cfg (solve i) (g.map (·.2)) = .ok nr →
+      nr.byResidual = true) :
+    ConvergedAt (enumerate reqs) cfg o.finalValues := by
+  obtain ⟨P, i, _, hs, hp⟩ := C03.result_is_subset_solve reqs g cfg solve svd o hne h
+  rw [← hp, htop, filter_le_maxPriority] at hs
+  obtain ⟨nr, hn, _, hf, _⟩ := solveInner_ok _ _ _ _ _ _ hs
+  rw [hf]
+  exact residual_stop_is_converged _ cfg (solve i) cfg.maxIterations 0 _ [] nr hn (hb i nr hn)
+
+/-- With a single requested priority, the returned outcome is always that of the top level. -/
+theorem single_priority_top (reqs : List (Constraint α × Nat)) (g : List (Nat × α))
+    (cfg : Config α) (solve : LinSolve α) (svd : Option (Svd α)) (o : Outcome α) (p : Nat)
+    (hp : ∀ r ∈ reqs, r.2 = p) (h : solveWithPriority reqs g cfg solve svd = .ok o) :
+    o.prioritySolved = maxPriority (enumerate reqs) := by
+  by_cases hne : reqs = []
+  · subst hne
+    simp [solveWithPriority, noConstraintsOutcome] at h
+    subst h; rfl
+  · obtain ⟨P, i, ⟨r, hr, hrP⟩, _, hP⟩ := C03.result_is_subset_solve reqs g cfg solve svd o hne h
+    have hen : enumerate reqs ≠ [] := by
+      intro hnil
+      have := enumerate_length reqs
+      rw [hnil] at this
+      exact hne (List.eq_nil_of_length_eq_zero this.symm)
+    obtain ⟨⟨e, he, hmax⟩, _⟩ := maxPriority_spec (enumerate reqs) hen
+    obtain ⟨r', hr', hr'p⟩ := (enumerate_priorities reqs _).mp ⟨e, he, hmax⟩
+    rw [hP, ← hrP, hp r hr, ← hr'p, hp r' hr']
+
+/-- C11.2 (public entry point) — **re-solving a result returns it unchanged.**  Let a prioritised
+solve return `o` from its top level (`htop`; automatic for single-priority lists,
+`single_priority_top`), and let the residual test pass at `o.finalValues` for the subset of every
+visited level (`hc`; under the order laws this follows from the full list alone, see
+`resolve_is_identity_solve`).  Then solving the same requests again from `o.finalValues` (same
+variable ids; any LU oracle; any analysis that does not fail) succeeds and returns the same values
+with 0 iterations; and if nothing was unsatisfied, nothing is unsatisfied and the solved priority
+is the same. -/
+theorem resolve_untouched (reqs : List (Constraint α × Nat)) (g g' : List (Nat × α))
+    (cfg : Config α) (solve solve' : LinSolve α) (svd svd' : Option (Svd α)) (o : Outcome α)
+    (h : solveWithPriority reqs g cfg solve svd = .ok o)
+    (hids : g'.map (·.1) = g.map (·.1)) (hvals : g'.map (·.2) = o.finalValues)
+    (htop : o.prioritySolved = maxPriority (enumerate reqs))
+    (hc : ∀ P ∈ levels (enumerate reqs),
+      ConvergedAt ((enumerate reqs).filter (fun e => e.priority ≤ P)) cfg o.finalValues)
+    (hana : ∀ i jac, ∃ u, runAnalysis (svd'.map (fun s => s i)) jac g'.length = .ok u) :
+    ∃ o', solveWithPriority reqs g' cfg solve' svd' = .ok o' ∧ o'.finalValues = o.finalValues ∧
+      o'.iterations = 0 ∧
+      (o.unsatisfied = [] → o'.unsatisfied = [] ∧ o'.prioritySolved = o.prioritySolved) := by
+  by_cases hne : reqs = []
+  · subst hne
+    simp [solveWithPriority, noConstraintsOutcome] at h
+    subst h
+    exact ⟨_, rfl, hvals, rfl, fun _ => ⟨rfl, rfl⟩⟩
+  · obtain ⟨P, i, _, hs, hp⟩ := C03.result_is_subset_solve reqs g cfg solve svd o hne h
+    rw [← hp, htop, filter_le_maxPriority] at hs
+    obtain ⟨nr, hn, hm, hf, _, _, _, hu, _⟩ := solveInner_ok _ _ _ _ _ _ hs
+    have hcap : 1 ≤ cfg.maxIterations := by
+      have := newtonLoop_iterations _ cfg (solve i) cfg.maxIterations 0 _ [] nr hn
+      omega
+    have hm' : modelNew (enumerate reqs) (g'.map (·.1)) = .ok () := by rw [hids]; exact hm
+    have hc' : ∀ P ∈ levels (enumerate reqs),
+        ConvergedAt ((enumerate reqs).filter (fun e => e.priority ≤ P)) cfg (g'.map (·.2)) := by
+      rw [hvals]; exact hc
+    obtain ⟨o', ho', h1, h2⟩ :=
+      converged_guess_untouched_ok reqs g' cfg solve' svd' hcap hm' hc' hana
+    refine ⟨o', ho', by rw [h1, hvals], h2, ?_⟩
+    intro hun
+    have hsat : ∀ e ∈ enumerate reqs, satisfiedAt e (lookup (g'.map (·.2))) = true := by
+      have := unsatisfiedSweep_eq _ _ _ hu
+      rw [hun] at this
+      have := this.symm
+      simp only [List.map_eq_nil_iff, List.filter_eq_nil_iff] at this
+      intro e he
+      have := this e he
+      rw [hvals, hf]
+      simpa using this
+    obtain ⟨o'', ho'', _, _, h3, h4⟩ :=
+      converged_guess_untouched reqs g' cfg solve' svd' hcap hm' hc' hsat hana
+    rw [ho'] at ho''
+    injection ho'' with ho''
+    subst ho''
+    exact ⟨h3, by rw [h4, htop]⟩
+
+/-- C11.2 under the order laws: it is enough that the residual test passes at the returned values
+for the *full* request list (which is what a top-level run that stopped at the residual test
+guarantees, `solve_residual_stop_converged`). -/
+theorem resolve_is_identity_solve (L : MaxLaws α) (reqs : List (Constraint α × Nat))
+    (g g' : List (Nat × α)) (cfg : Config α) (solve solve' : LinSolve α)
+    (svd svd' : Option (Svd α)) (o : Outcome α)
+    (h : solveWithPriority reqs g cfg solve svd = .ok o)
+    (hids : g'.map (·.1) = g.map (·.1)) (hvals : g'.map (·.2) = o.finalValues)
+    (htop : o.prioritySolved = maxPriority (enumerate reqs))
+    (hc : ConvergedAt (enumerate reqs) cfg o.finalValues)
+    (hana : ∀ i jac, ∃ u, runAnalysis (svd'.map (fun s => s i)) jac g'.length = .ok u) :
+    ∃ o', solveWithPriority reqs g' cfg solve' svd' = .ok o' ∧ o'.finalValues = o.finalValues ∧
+      o'.iterations = 0 ∧
+      (o.unsatisfied = [] → o'.unsatisfied = [] ∧ o'.prioritySolved = o.prioritySolved) :=
+  resolve_untouched reqs g g' cfg solve solve' svd svd' o h hids hvals htop
+    (fun P hP => ConvergedAt_subset L _ _ cfg _ hc (fun _ he => (List.mem_filter.mp he).1)
+      (filter_level_ne_nil _ P hP)) hana
+
+/-- C11.2 + C11.3 under the order laws — **re-solving with further constraints that the result
+already satisfies returns it unchanged**: if the first solve returned `o` from its top level at the
+residual test, and the residual test also passes at `o.finalValues` for the added requests
+`extra`, then the solve of `reqs ++ extra` from `o.finalValues` (model creation succeeding for the
+longer list) returns the same values with 0 iterations. -/
+theorem resolve_with_extra_untouched (L : MaxLaws α) (reqs extra : List (Constraint α × Nat))
+    (g g' : List (Nat × α)) (cfg : Config α) (solve solve' : LinSolve α)
+    (svd svd' : Option (Svd α)) (o : Outcome α) (hne : reqs ≠ [])
+    (h : solveWithPriority reqs g cfg solve svd = .ok o)
+    (hvals : g'.map (·.2) = o.finalValues)
+    (htop : o.prioritySolved = maxPriority (enumerate reqs))
+    (hb : ∀ i nr, newton (enumerate reqs) cfg (solve i) (g.map (·.2)) = .ok nr →
+      nr.byResidual = true)
+    (hextra : ConvergedAt (enumerate extra) cfg o.finalValues)
+    (hm : modelNew (enumerate (reqs ++ extra)) (g'.map (·.1)) = .ok ())
+    (hana : ∀ i jac, ∃ u, runAnalysis (svd'.map (fun s => s i)) jac g'.length = .ok u) :
+    ∃ o', solveWithPriority (reqs ++ extra) g' cfg solve' svd' = .ok o' ∧
+      o'.finalValues = o.finalValues ∧ o'.iterations = 0 ∧
+      ((∀ e ∈ enumerate (reqs ++ extra), satisfiedAt e (lookup o.finalValues) = true) →
+        o'.unsatisfied = [] ∧ o'.prioritySolved = maxPriority (enumerate (reqs ++ extra))) := by
+  have hc := solve_residual_stop_converged reqs g cfg solve svd o hne h htop hb
+  have hcap : 1 ≤ cfg.maxIterations := by
+    have := C03.result_is_subset_solve reqs g cfg solve svd o hne h
+    obtain ⟨P, i, _, hs, _⟩ := this
+    have := solveInner_iterations_lt _ _ _ _ _ _ hs
+    omega
+  rw [← hvals] at hc hextra ⊢
+  obtain ⟨o', ho', h1, h2, h3⟩ :=
+    converged_guess_untouched_append L reqs extra g' cfg solve' svd' hcap hm hc hextra hana
+  exact ⟨o', ho', h1, h2, h3⟩
+
 /-! ### Non-vacuity -/
 
 /-- `ConvergedAt` holds for a concrete system at a concrete point (`Fixed(0, 1.0)` at `[1.0]`). -/
 example : ConvergedAt [⟨Constraint.fixed 0 (1.0 : Float), 0, 0⟩] Config.default [1.0] :=
   ⟨[0.0], [], [(0, 0, 1.0)], [], 0.0, rfl, rfl, rfl, by decide⟩
+
+/-- The residual test never passes for the empty list (`maxAbs? [] = none` is the
+"empty system" error).  This is why the hypothesis of C11.1 ranges over the *visited* levels only:
+for `P` below the smallest requested priority the subset `priority ≤ P` is empty. -/
+theorem not_convergedAt_nil (cfg : Config α) (x : List α) : ¬ ConvergedAt [] cfg x := by
+  rintro ⟨r, w1, jac, w2, l, hr, _, hm, _⟩
+  simp [residualAll] at hr
+  obtain ⟨rfl, _⟩ := hr
+  simp [maxAbs?] at hm
+
+/-- Two requests with priorities 3 and 7 (no request has priority 0), satisfied at the guesses. -/
+def exReqs : List (Constraint Float × Nat) :=
+  [(Constraint.fixed 0 1.0, 3), (Constraint.fixed 1 2.0, 7)]
+
+/-- The hypotheses of `converged_guess_untouched` hold for `exReqs` at the guesses
+`x0 = 1.0, x1 = 2.0` with the default configuration, and the theorem gives the outcome, for every
+LU oracle. -/
+example (solve : LinSolve Float) :
+    ∃ o, solveWithPriority exReqs [(0, 1.0), (1, 2.0)] Config.default solve none = .ok o ∧
+      o.finalValues = [1.0, 2.0] ∧ o.iterations = 0 ∧ o.unsatisfied = [] ∧
+      o.prioritySolved = 7 ∧ o.underconstrained = none :=
+  converged_guess_untouched_no_analysis exReqs [(0, 1.0), (1, 2.0)] Config.default solve
+    (by decide) rfl
+    (by
+      intro P hP
+      have hl : levels (enumerate exReqs) = [3, 7] := by decide
+      rw [hl] at hP
+      simp only [List.mem_cons, List.not_mem_nil, or_false] at hP
+      rcases hP with rfl | rfl
+      · exact ⟨[0.0], [], [(0, 0, 1.0)], [], 0.0, rfl, rfl, rfl, by decide⟩
+      · exact ⟨[0.0, 0.0], [], [(0, 0, 1.0), (1, 1, 1.0)], [], 0.0, rfl, rfl, rfl, by decide⟩)
+    (by decide)
+
+/-- The old hypothesis (`∀ P`, not only visited levels) is unsatisfiable for `exReqs`. -/
+example : ¬ ∀ P, ConvergedAt ((enumerate exReqs).filter (fun e => e.priority ≤ P)) Config.default
+    [1.0, 2.0] :=
+  fun h => not_convergedAt_nil _ _ (h 0)
+
+/-- An LU oracle that answers `[1.0, 2.0]` whatever it is asked. -/
+def exOracle : LinSolve Float := fun _ _ _ _ => .ok [1.0, 2.0]
+
+/-- The hypotheses of `resolve_untouched` hold for a genuine two-level solve of `exReqs` from the
+guesses `0.0, 0.0` (each level takes one step with `exOracle` and stops at the residual test in
+round 1), and the theorem says that re-solving from the result with any oracle returns it with 0
+iterations. -/
+example (solve' : LinSolve Float) :
+    ∃ o', solveWithPriority exReqs [(0, 1.0), (1, 2.0)] Config.default solve' none = .ok o' ∧
+      o'.finalValues = [1.0, 2.0] ∧ o'.iterations = 0 ∧
+      (([] : List Nat) = [] → o'.unsatisfied = [] ∧ o'.prioritySolved = 7) :=
+  resolve_untouched exReqs [(0, 0.0), (1, 0.0)] [(0, 1.0), (1, 2.0)] Config.default exOracle solve'
+    none none ⟨[], [1.0, 2.0], 1, [], 7, none⟩ rfl rfl rfl rfl
+    (by
+      intro P hP
+      have hl : levels (enumerate exReqs) = [3, 7] := by decide
+      rw [hl] at hP
+      simp only [List.mem_cons, List.not_mem_nil, or_false] at hP
+      rcases hP with rfl | rfl
+      · exact ⟨[0.0], [], [(0, 0, 1.0)], [], 0.0, rfl, rfl, rfl, by decide⟩
+      · exact ⟨[0.0, 0.0], [], [(0, 0, 1.0), (1, 1, 1.0)], [], 0.0, rfl, rfl, rfl, by decide⟩)
+    (fun _ _ => ⟨none, rfl⟩)
+
+/-- The ghost hypothesis of `solve_residual_stop_converged` holds for that solve: the top-level
+Newton run stops at the residual test, for every call number. -/
+example : ∀ i nr, newton (enumerate exReqs) Config.default (exOracle i) [0.0, 0.0] = .ok nr →
+    nr.byResidual = true := by
+  intro i nr h
+  have : newton (enumerate exReqs) Config.default (exOracle i) [0.0, 0.0] =
+      .ok ⟨[1.0, 2.0], 1, [], [(0, 0, 1.0), (1, 1, 1.0)], true⟩ := rfl
+  rw [this] at h
+  injection h with h
+  subst h
+  rfl
+
+/-- The order laws cannot be dropped from `ConvergedAt_subset`: for `Float`, with a NaN guess for
+`x0`, the residual test passes for the two requests of `exReqs` together (`fmax` skips the NaN
+component `NaN - 1.0` and keeps `|2.0 - 2.0|`), but not for the level-3 subset alone. -/
+example : ConvergedAt (enumerate exReqs) Config.default [0.0 / 0.0, 2.0] ∧
+    ¬ ConvergedAt ((enumerate exReqs).filter (fun e => e.priority ≤ 3)) Config.default
+      [0.0 / 0.0, 2.0] := by
+  constructor
+  · exact ⟨_, _, _, _, _, rfl, rfl, rfl, by decide⟩
+  · rintro ⟨r, w1, jac, w2, l, hr, _, hm, hl⟩
+    have h1 : residualAll ((enumerate exReqs).filter (fun e => e.priority ≤ 3))
+        (lookup [0.0 / 0.0, 2.0]) = .ok ([0.0 / 0.0 - 1.0], []) := rfl
+    rw [h1] at hr
+    injection hr with hr
+    injection hr with hr _
+    subst hr
+    have h2 : maxAbs? [(0.0 / 0.0 - 1.0 : Float)] = some (Float.abs (0.0 / 0.0 - 1.0)) := rfl
+    rw [h2] at hm
+    injection hm with hm
+    subst hm
+    revert hl
+    decide
+
+/-- An LU oracle that answers `[1.0, 0.0]` at the first level and fails at the second. -/
+def exOracleA : LinSolve Float :=
+  fun call _ _ _ => if call = 0 then .ok [1.0, 0.0] else .error .faerSolve
+
+/-- An LU oracle that answers `[0.0, 2.0]` whatever it is asked. -/
+def exOracleB : LinSolve Float := fun _ _ _ _ => .ok [0.0, 2.0]
+
+/-- The hypothesis `htop` of `resolve_untouched` cannot be dropped: a *fallback* result is not a
+fixed point of re-solving.  With `exOracleA` the second level of the first solve fails, so the
+solve returns the first level's outcome (`x = [1.0, 0.0]`, solved priority 3, nothing unsatisfied,
+stopped at the residual test).  Solving again from those values with `exOracleB`, the second level
+now succeeds and the values move to `[1.0, 2.0]` in one iteration. -/
+example :
+    solveWithPriority exReqs [(0, 0.0), (1, 0.0)] Config.default exOracleA none =
+      .ok ⟨[], [1.0, 0.0], 1, [], 3, none⟩ ∧
+    solveWithPriority exReqs [(0, 1.0), (1, 0.0)] Config.default exOracleB none =
+      .ok ⟨[], [1.0, 2.0], 1, [], 7, none⟩ := ⟨rfl, rfl⟩
 
 end Ezpz.C11
